@@ -141,6 +141,9 @@ func (fip *FloatingIPPool) UnmarshalJSON(data []byte) error {
 	}
 	if conf.Subnet != nil {
 		fip.Mask = conf.Subnet.Mask
+		if !conf.Subnet.ToIPNet().Contains(fip.Gateway) {
+			return fmt.Errorf("gateway %s not in subnet %s", fip.Gateway.String(), conf.Subnet.String())
+		}
 	} else {
 		return fmt.Errorf("subnet is empty")
 	}
